@@ -160,6 +160,10 @@ def interfaces():
         ensures={"fn": "result == ufun_bool('is_empty', v)"}, returns="bool", class_fields=CF,
         assumptions=["ExpressionUtility.is_empty(v) is a function of v only (None, 'None', 'nan', blank strings, empty containers: bounded in C03.bounded)"]))
     cs.append(Contract(
+        target=f"{MATCHER}::Matcher.get_variable", interface=True, variant="count_with_default", types={"name": "val", "tracking": "val", "set_if_none": "int"},
+        ensures={"current_or_default": "result == (self.g_current if self.g_current is not None else set_if_none)"}, returns="int", class_fields=CF,
+        assumptions=["as with_default, for a variable that holds a count (an int) read with an int default"]))
+    cs.append(Contract(
         target=f"{MATCHABLE}::Matchable.get_id", interface=True, types={"child": "val"},
         ensures={"stable": "result == self.g_id"}, returns="str", class_fields=CF,
         assumptions=["Matchable.get_id() is a stable per-component identifier"]))
@@ -270,6 +274,34 @@ def leaf_contracts():
                 "distinct_skips_a_repeat": "'distinct' in self._qualifiers and len(old(self.matcher.g_stack)) == 1 and len(self.matcher.g_stack) == 1"},
         returns="none", inline=INL + ["Equality.left", "Equality.right"], callee_variants={"Matcher.get_variable": "stack"},
         property_clauses={"appends_the_value_unless_distinct_or_notnone_blocks": "C03"}, **{k: v for k, v in {**base, "native": NATIVE_STACK}.items() if k != "inline"}))
+    # ---- subtotal(): running sum per tracking value
+    pairt = {"skip": "none", "self.children": "fixed[obj:Equality]", "self.children.0.children": "fixed[obj:Matchable,obj:Matchable]", "self.name": "str", "self.value": "val",
+             "self.matcher.g_current": "optnum", "self.children.0.children.1.g_value": "num"}
+    tv, cv = "self.children[0].children[0].g_value", "self.children[0].children[1].g_value"
+    cs.append(Contract(
+        target=f"{FN}/math/subtotal.py::Subtotal._produce_value", types=pairt,
+        modifies=WMOD + ["self.value", "self.children.0.children.0.g_to_value_calls", "self.children.0.children.1.g_to_value_calls"],
+        ensures={"running_sum_per_category": "self.matcher.g_writes == old(self.matcher.g_writes) + 1 and same(self.matcher.g_wname, %s) and same(self.matcher.g_wtracking, %s) and "
+                                             "self.matcher.g_wvalue == (0 if self.matcher.g_current is None else self.matcher.g_current) + %s" % (sname, tv, cv),
+                 "value_is_the_subtotal_so_far": "same(self.value, self.matcher.g_wvalue)"},
+        returns="none", inline=INL + ["Matchable._value_one", "Matchable._value_two", "Matchable._child_one", "Matchable._child_two", "Equality.left", "Equality.right"],
+        callee_variants={"Matcher.get_variable": "with_default", "ExpressionUtility.to_float": "of_a_number"},
+        property_clauses={"running_sum_per_category": "C03"}, **{k: v for k, v in base.items() if k != "inline"}))
+    # ---- every(): per-value modulo counter
+    cs.append(Contract(target="csvpath/matching/util/expression_utility.py::ExpressionUtility.to_int", interface=True, variant="of_an_int", types={"v": "int", "should_i_raise": "val"},
+                       ensures={"same": "result == v"}, returns="int", class_fields=CF, assumptions=["ExpressionUtility.to_int of an int is that int (string cells: bounded)"]))
+    me_ = "(self.qualifier if self.qualifier is not None else self.g_id)"
+    cs.append(Contract(
+        target=f"{FN}/counting/every.py::Every._produce_value",
+        types={"skip": "none", "self.children": "fixed[obj:Equality]", "self.children.0.children": "fixed[obj:Matchable,obj:Matchable]", "self.value": "val", "self.qualifier": "optstr",
+               "self.matcher.g_current": "optint", "self.children.0.children.1.g_value": "int"},
+        requires=["self.children[0].children[1].g_value > 0", "self.matcher.g_current is None or self.matcher.g_current >= 0"],
+        modifies=WMOD + ["self.value", "self.children.0.children.0.g_to_value_calls", "self.children.0.children.1.g_to_value_calls"],
+        ensures={"counts_one_more_sighting_of_the_value": "wrote(%s, %s + 1, self.children[0].children[0].g_value)" % (me_, ccur),
+                 "value_is_the_count_modulo_n": "self.value == (%s + 1) %% self.children[0].children[1].g_value" % ccur},
+        returns="none", inline=INL + ["Equality.left", "Equality.right", "Every.me"],
+        callee_variants={"Matcher.get_variable": "count_with_default", "ExpressionUtility.to_int": "of_an_int"},
+        property_clauses={"counts_one_more_sighting_of_the_value": "C03", "value_is_the_count_modulo_n": "C03,C01"}, **{k: v for k, v in base.items() if k != "inline"}))
     # ---- positions: count_lines(), line_number(), count_scans()
     pos = dict(types={"skip": "none", "self.matcher.csvpath._line_monitor": "obj:LineMonitor", "self.value": "val"}, modifies=["self.value"], returns="none")
     cs.append(Contract(target=f"{FN}/counting/count_lines.py::CountLines._produce_value",
